@@ -62,8 +62,11 @@ class DiskMixin:
         self.root = os.path.join(self.dir, 'ae')
         sys.path[:] = [p for p in sys.path if not p.startswith('/dev/shm/verif-')]
         sys.path.insert(0, self.root)
-        written = aegen.write_disk(self.spec, self.root)
+        self.style = self.cfg.get('style') or ['explicit', 'auto'][self.ch.choose('disk.style', 2)]
+        self.probes['engine_style_' + self.style] += 1
+        written = aegen.write_disk(self.spec, self.root, style=self.style)
         importlib.invalidate_caches()
+        self.order_routines()
         ctx.ae_base_path = os.path.join(self.root, *self.spec.base.split('.'))
         ctx.ae_base_package = self.spec.base
         scan.for_factories = _REAL['for_factories']
@@ -72,12 +75,30 @@ class DiskMixin:
         scan.IGNORE.clear()
         self.op(f'engine written to disk: {written}')
 
+    def order_routines(self):
+        """dawgie.base keeps the registered classes in sets (hashed by address): the order in which a bot lists its
+        routines is address-space noise.  It is replaced by a per-run permutation drawn from the chooser."""
+        import dawgie.base as base
+
+        salt = self.ch.choose('disk.routine_order', 1 << 16)
+
+        def key(c):
+            import hashlib
+
+            return hashlib.sha256(f'{salt}:{c.__module__}.{c.__qualname__}'.encode()).hexdigest()
+
+        for cls, attr in ((base.Task, '_Task__algorithms'), (base.Analysis, '_Analysis__analyzers'), (base.Regress, '_Regress__regressions')):
+            def routines(bot, _attr=attr):
+                return [c() for c in sorted(getattr(bot, _attr), key=key)]
+
+            cls.routines = routines
+
     def user_event(self):
         had = self.pending
         super().user_event()
         if self.pending is not None and self.pending is not had:
             # the new release is on disk before the pipeline is told to reload
-            written = aegen.write_disk(self.pending, self.root)
+            written = aegen.write_disk(self.pending, self.root, style=self.style)
             importlib.invalidate_caches()
             self.op(f'sources rewritten: {written}')
             self.probes['sources_rewritten'] += bool(written)
@@ -124,7 +145,7 @@ class DiskFsmWorld(DiskMixin, fsm.FsmWorld):
 
     def _sync(self, had):
         if self.pending is not None and self.pending is not had:
-            written = aegen.write_disk(self.pending, self.root)
+            written = aegen.write_disk(self.pending, self.root, style=self.style)
             importlib.invalidate_caches()
             self.op(f'sources rewritten: {written}')
             self.probes['sources_rewritten'] += bool(written)
